@@ -187,6 +187,23 @@ Section WithPlan.
       - intros s [H1 H2]. split; [exact H1|]. split; [exact H2|]. intros; discriminate.
     Qed.
 
+    (** os.Remove(z.meta) with IsNotExist ignored, when z has no shard (orphan sidecar) or no sidecar at all *)
+    Lemma rm_stale_spec : forall z (F : fs -> Prop),
+      (forall s, F s -> F (upd s (PMeta z) None)) ->
+      hoare (fun s => BI s /\ F s /\ (s (PZ z) = None \/ s (PMeta z) = None))
+            (exec_remove_stale plan (PMeta z))
+            (fun ok s => BI s /\ F s /\ (ok = true -> s (PMeta z) = None)).
+    Proof.
+      intros z F HF. apply hoare_exec_stale.
+      - intros s s' [HB [HFs Hd]] E. apply step_remove in E. destruct E as [-> Hf].
+        assert (Hz : s (PZ z) = None).
+        { destruct Hd as [H|H]; auto. unfold is_file in Hf. rewrite H in Hf. discriminate. }
+        assert (B := BI_rm_meta s z Hz HB). split; [apply shrunk_no_dup, B|].
+        split; [exact B|]. split; [auto|]. intros _. apply upd_same.
+      - intros s [H1 [H2 _]]. split; auto. split; auto. discriminate.
+      - intros s [H1 [H2 _]] Hn. auto.
+    Qed.
+
     (** remove_all (IndexFilePaths z), computed on the state [x] the loop body observed *)
     Lemma del_one : forall z x,
       hoare (fun s => x = s /\ BI s) (remove_all plan (index_file_paths x z))
@@ -264,9 +281,12 @@ Section WithPlan.
   (** ---- merge *)
   Section Merge.
     Variable names : list zname.
-    (** no stale sidecar waits at the destination name (unless the destination is itself an input, whose
-        sidecar merge deletes) *)
-    Hypothesis Hmeta : forall d, merge_dst s0 names = Some d -> s0 (PMeta d) = None \/ In d names.
+    (** [fixed = false] (the code before the "stale .meta" repair): no stale sidecar waits at the destination
+        name, unless the destination is itself an input, whose sidecar merge deletes.
+        [fixed = true]: a stale sidecar may wait there if it is an ORPHAN (no shard of that name beside it) *)
+    Variable fixed : bool.
+    Hypothesis Hmeta : forall d, merge_dst s0 names = Some d ->
+      s0 (PMeta d) = None \/ In d names \/ (fixed = true /\ s0 (PZ d) = None).
 
     Definition MergeQ (r : res) (s : fs) : Prop :=
       match r with
@@ -278,9 +298,9 @@ Section WithPlan.
                          forall z, In z names -> z <> d -> s (PZ z) = None
       end.
 
-    Lemma merge_spec : hoare (fun s => s = s0) (merge_prog plan names) MergeQ.
+    Lemma merge_spec : hoare (fun s => s = s0) (merge_prog_gen plan fixed names) MergeQ.
     Proof.
-      unfold merge_prog.
+      unfold merge_prog_gen.
       eapply hoare_bind; [apply open_all_spec|]. intros o.
       destruct o; unfold merge_open_failed; try (apply hoare_ret; simpl; auto).
       eapply hoare_bind; [apply hoare_get|]. intros x. simpl.
@@ -297,19 +317,29 @@ Section WithPlan.
       { eapply hoare_conseq; [apply (delete_inputs_spec Pz [dst] names [])| |]; auto.
         intros s [[H1 [H2 H3]] H4]. split; [exact H1|split; [auto|exact H3]]. }
       intros ok2. apply hoare_if_negb; intros ->; [apply hoare_ret; simpl; auto|].
+      assert (Hd : merge_dst s0 names = Some dst) by (unfold merge_dst; rewrite Ep; reflexivity).
+      eapply hoare_bind with (R := fun ok s => BI Pz [dst] [] s /\ Gone names s /\ (ok = true -> s (PMeta dst) = None)).
+      { destruct fixed.
+        - eapply hoare_conseq; [apply (rm_stale_spec Pz [dst] [] dst (Gone names))| |].
+          + intros s H. apply gone_upd_none; auto.
+          + intros s [HB HG]. specialize (HG eq_refl). split; [exact HB|]. split; [exact HG|].
+            destruct (Hmeta dst Hd) as [H|[H|[_ H]]].
+            * right. eapply shrunk_meta; eauto. apply HB.
+            * left. apply HG; auto.
+            * left. destruct HB as [HS _]. destruct (HS dst) as [[H1 _]|[H1 _]]; congruence.
+          + auto.
+        - apply hoare_ret. intros s [HB HG]. specialize (HG eq_refl). split; [exact HB|]. split; [exact HG|]. intros _.
+          destruct (Hmeta dst Hd) as [H|[H|[H _]]]; [|apply HG; auto|discriminate].
+          eapply shrunk_meta; eauto. apply HB. }
+      intros ok2'. apply hoare_if_negb; intros ->; [apply hoare_ret; simpl; auto|].
       eapply hoare_bind with (R := fun ok s => ok = true -> MergeQ (ROk (Some dst)) s).
       2:{ intros ok3. apply hoare_if_negb; intros ->; apply hoare_ret; simpl; auto. }
       apply hoare_exec; [|intros; discriminate].
-      intros s s' [[HS [HT _]] HG] E. specialize (HG eq_refl).
+      intros s s' [[HS [HT _]] [HG Hmd]] E. specialize (Hmd eq_refl).
       apply step_rename in E. destruct E as [-> [c Hc]].
       destruct (HT dst (or_introl eq_refl)) as [Hn|[c' [Hc' HP]]]; [congruence|].
       rewrite Hc in Hc'. inversion Hc'; subst c'. unfold Pz in HP. subst c.
       set (s' := upd (upd s (PZ dst) (s (PTmp dst))) (PTmp dst) None).
-      assert (Hmd : s (PMeta dst) = None).
-      { destruct (Hmeta dst) as [H|H].
-        - unfold merge_dst. rewrite Ep. reflexivity.
-        - eapply shrunk_meta; eauto.
-        - apply HG; auto. }
       assert (Heff : eff s' dst = Some mr).
       { unfold eff, s'. rewrite upd_other by discriminate. rewrite upd_same, Hc.
         rewrite !upd_other by discriminate. rewrite Hmd. reflexivity. }
